@@ -23,9 +23,11 @@ type CertDef struct {
 	Key string // pool key name
 	// KeyIDClass: "ysshca0".."ysshca6" (the 7 types), "missing", "version", "inconsistent", "text", "empty"
 	KeyIDClass string
-	// Validity: current | forever | past | future | lapsing | zero | aftermax | beforebig
+	// Validity: current | forever | past | justpast | future | soon | lapsing | zero | aftermax | beforebig
 	Validity string
 	Serial   uint64
+	// Host: a host certificate instead of a user certificate
+	Host bool `json:",omitempty"`
 }
 
 // Op is one step of a shim history.
@@ -105,6 +107,9 @@ type world struct {
 	closed   bool
 	tr       Trace
 
+	// soonVA: the ValidAfter of certificates of validity class "soon" (premature, about to become valid in
+	// 25 s); a history that lasts until 2 s before that moment is abandoned as time-ambiguous
+	soonVA     int64
 	hasLapsing bool
 	lapsed     bool
 	lapseVB    int64
@@ -163,7 +168,7 @@ func keyIDFor(class string, serial uint64, key string) (string, map[string]strin
 func (w *world) buildCerts(now int64) {
 	for _, d := range w.c.Certs {
 		kid, crit := keyIDFor(d.KeyIDClass, d.Serial, d.Key)
-		s := SSHCertSpec{Key: d.Key, KeyID: kid, CritOpts: crit, Serial: d.Serial, Principals: []string{"user_a"}}
+		s := SSHCertSpec{Key: d.Key, KeyID: kid, CritOpts: crit, Serial: d.Serial, Principals: []string{"user_a"}, Host: d.Host}
 		switch d.Validity {
 		case "current":
 			s.ValidAfter, s.ValidBefore = uint64(now-3600), uint64(now+7200)
@@ -176,6 +181,11 @@ func (w *world) buildCerts(now int64) {
 		case "lapsing":
 			s.ValidAfter, s.ValidBefore = uint64(now-3600), uint64(now+2)
 			w.hasLapsing, w.lapseVB = true, now+2
+		case "justpast": // expired a few seconds ago
+			s.ValidAfter, s.ValidBefore = uint64(now-3600), uint64(now-5)
+		case "soon":
+			s.ValidAfter, s.ValidBefore = uint64(now+25), uint64(now+7200)
+			w.soonVA = now + 25
 		case "zero":
 			s.ValidAfter, s.ValidBefore = 0, 0
 		case "aftermax":
@@ -404,6 +414,38 @@ func (w *world) target(op Op) (ssh.PublicKey, string) {
 	return nil, "nil"
 }
 
+// opWatchdog bounds a single shim operation (they take milliseconds; the underlying agent of these
+// histories never stalls): an operation that does not come back is a stuck agent.
+const opWatchdog = 10 * time.Second
+
+type stuckError struct{ after time.Duration }
+
+func (e stuckError) Error() string {
+	return fmt.Sprintf("the operation did not come back within %s (the agent is stuck: a lock that is never released?)", e.after)
+}
+
+// CatchWithin is catchWithin for the harness packages.
+func CatchWithin(d time.Duration, f func()) error { return catchWithin(d, f) }
+
+// catchWithin is Catch with a completion watchdog.
+func catchWithin(d time.Duration, f func()) error {
+	done := make(chan error, 1)
+	go func() { done <- Catch(f) }()
+	select {
+	case e := <-done:
+		return e
+	case <-time.After(d):
+		return stuckError{d}
+	}
+}
+
+// scribble overwrites a buffer the harness handed to the code under test, after the call returned.
+func scribble(b []byte) {
+	for i := range b {
+		b[i] = 0xA5
+	}
+}
+
 // faultCount returns the number of faulted frames recorded so far.
 func (w *world) faultCount() (n int, fatal bool) {
 	for _, f := range w.p.Frames() {
@@ -485,7 +527,8 @@ func RunShimCase(c ShimCase) (tr Trace, err error) {
 	w.sh = sh
 	defer func() {
 		if !w.closed {
-			_ = Catch(func() { sh.Close() })
+			// a stuck agent must not hang the harness as well
+			_ = catchWithin(2*time.Second, func() { sh.Close() })
 		}
 	}()
 
@@ -576,14 +619,17 @@ func (w *world) step(i int, op Op) error {
 	if data == nil {
 		data = []byte{}
 	}
-	perr := Catch(func() {
+	perr := catchWithin(opWatchdog, func() {
 		switch op.Kind {
 		case "list":
 			keys, opErr = w.sh.List()
 		case "signers":
 			signers, opErr = w.sh.Signers()
 		case "sign":
-			sig, opErr = w.sh.SignWithFlags(key, data, agent.SignatureFlags(op.Flags))
+			// every byte slice handed to the agent is the caller's: overwritten once the call returned
+			d2 := append([]byte{}, data...)
+			sig, opErr = w.sh.SignWithFlags(key, d2, agent.SignatureFlags(op.Flags))
+			scribble(d2)
 		case "signvia":
 			signers, opErr = w.sh.Signers()
 			if opErr == nil {
@@ -611,21 +657,41 @@ func (w *world) step(i int, op Op) error {
 		case "removeall":
 			opErr = w.sh.RemoveAll()
 		case "lock":
-			opErr = w.sh.Lock([]byte(op.Pass))
+			// the caller wipes its passphrase buffer as soon as the call returns (what a careful caller does)
+			buf := []byte(op.Pass)
+			opErr = w.sh.Lock(buf)
+			for i := range buf {
+				buf[i] = 0
+			}
 		case "unlock":
-			opErr = w.sh.Unlock([]byte(op.Pass))
+			buf := []byte(op.Pass)
+			opErr = w.sh.Unlock(buf)
+			for i := range buf {
+				buf[i] = 'X'
+			}
 		case "close":
 			opErr = w.sh.Close()
 		case "forward":
-			reply, opErr = w.sh.Forward(op.Body)
+			b2 := append([]byte{}, op.Body...)
+			reply, opErr = w.sh.Forward(b2)
+			scribble(b2)
 		case "extension":
-			reply, opErr = w.sh.Extension("verif@harness", op.Body)
+			b2 := append([]byte{}, op.Body...)
+			reply, opErr = w.sh.Extension("verif@harness", b2)
+			scribble(b2)
 		}
 	})
+	if se, stuck := perr.(stuckError); stuck {
+		return Errf("%s on %s: %v", where, keyDesc, se)
+	}
 	if perr != nil {
 		return Errf("%s on %s crashed: %v", where, keyDesc, perr)
 	}
 	if w.hasLapsing && !w.lapsed && time.Now().Unix() > w.lapseVB {
+		w.tr.TimeAmbiguous = true
+		return nil
+	}
+	if w.soonVA != 0 && time.Now().Unix()+2 >= w.soonVA {
 		w.tr.TimeAmbiguous = true
 		return nil
 	}
